@@ -14,6 +14,8 @@ pub(crate) mod verif_r2 {
     pub(crate) fn qlen(rb: &RingBuffer) -> usize {
         if rb.tail >= rb.head { rb.tail - rb.head } else { rb.cap - rb.head + rb.tail }
     }
+    pub(crate) fn head_of(rb: &RingBuffer) -> usize { rb.head }
+    pub(crate) fn cap_of(rb: &RingBuffer) -> usize { rb.cap }
     /// i-th byte of the queue view (i < qlen)
     pub(crate) fn qget(rb: &RingBuffer, i: usize) -> u8 {
         unsafe { *rb.buf.as_ptr().add((rb.head + i) % rb.cap) }
